@@ -7,11 +7,19 @@
                                  (`z` = a read of 0 bytes); rest length = bytes still to arrive
                                  (payloads of the ops on an R line are ignored: kinds only)
     LS <w> <hex> / LU <w> <hex>  →  signed / unsigned little-endian read of w bytes
+    RB <sz> <hex>                →  ReadBytes(sz), sz signed
+    CK <count> <minBytes> <avail>→  CheckCount on a slice with avail bytes left: ok | fail
+    RG <kind> <hex>              →  one array read *with* its CheckCount guard (kind = an array op kind, or decArr)
+    G <conv> <pos> <hex>         →  ToX(buf, pos) / Get: conv = bool | s<w> | u<w> | ls<w> | lu<w> | raw<n>
+    SB <w> <off> <v> <hex>       →  SetBytesX(buf, off, v) for a w-byte signed field;  SR <off> <src> <hex> → SetBytes
+    HIST <step>|<step>|…         →  a history of one DataOutputX: o=<op> b=<hex> w=<hex>/<off>/<sz>
+                                    h=<src>/<ver>/<pcode>/<lic> s=<src>/<ver>/<pcode>/<oid>/<key>
 
   op syntax  kind:payload   (ints decimal, bytes hex, lists comma separated, empty = "-")
 -/
 import Golib.Prim.Extra
 import Golib.Prim.Stream
+import Golib.Prim.Api
 import Driver.Common
 
 open Prim Drv
@@ -75,6 +83,82 @@ def parseOp (s : String) : Option Op :=
 
 def parseOps (s : String) : Option (List Op) :=
   if s == "-" then some [] else (s.splitOn ";").mapM parseOp
+
+def dropS (s : String) (n : Nat) : String := String.ofList (s.toList.drop n)
+
+def parseStep (s : String) : Option WStep :=
+  if s.startsWith "o=" then (parseOp (dropS s 2)).map .op
+  else if s.startsWith "b=" then (ofHex (dropS s 2)).map .bytes
+  else if s.startsWith "w=" then
+    match (dropS s 2).splitOn "/" with
+    | [b, off, sz] =>
+      match ofHex b, parseNat off, parseNat sz with
+      | some b, some off, some sz => some (.window b off sz)
+      | _, _, _ => none
+    | _ => none
+  else if s.startsWith "h=" then
+    match (dropS s 2).splitOn "/" with
+    | [a, b, c, d] =>
+      match parseNat a, parseNat b, parseInt c, parseInt d with
+      | some a, some b, some c, some d => some (.header a b c d)
+      | _, _, _, _ => none
+    | _ => none
+  else if s.startsWith "s=" then
+    match (dropS s 2).splitOn "/" with
+    | [a, b, c, d, e] =>
+      match parseNat a, parseNat b, parseInt c, parseInt d, parseInt e with
+      | some a, some b, some c, some d, some e => some (.secureHeader a b c d e)
+      | _, _, _, _, _ => none
+    | _ => none
+  else none
+
+def showOpt {α : Type} (f : α → String) : Option α → String
+  | some a => f a
+  | none => "fail"
+
+/-- `G` line: the conversion helpers at an offset -/
+def convAt (conv : String) (buf : Bytes) (pos : Nat) : String :=
+  if conv == "bool" then showOpt (fun b => if b then "true" else "false") (fieldBool buf pos)
+  else if conv.startsWith "raw" then
+    match parseNat (dropS conv 3) with
+    | some n => showOpt hexOf (getAt buf pos n)
+    | none => "bad-op"
+  else if conv.startsWith "ls" then
+    match parseNat (dropS conv 2) with
+    | some w => showOpt toString (fieldILittle w buf pos)
+    | none => "bad-op"
+  else if conv.startsWith "lu" then
+    match parseNat (dropS conv 2) with
+    | some w => showOpt toString (fieldULittle w buf pos)
+    | none => "bad-op"
+  else if conv.startsWith "s" then
+    match parseNat (dropS conv 1) with
+    | some w => showOpt toString (fieldI w buf pos)
+    | none => "bad-op"
+  else if conv.startsWith "u" then
+    match parseNat (dropS conv 1) with
+    | some w => showOpt toString (fieldU w buf pos)
+    | none => "bad-op"
+  else "bad-op"
+
+def showArr {α : Type} (f : List α → Op) (r : Option (List α × Bytes)) : String :=
+  match r with
+  | some (xs, rest) => s!"ok {showOp (f xs)} {rest.length}"
+  | none => "fail"
+
+def guardedArr (kind : String) (bs : Bytes) : String :=
+  match kind with
+  | "shortArr" => showArr Op.shortArr (runArrGuarded (rdI 2) 2 bs)
+  | "intArr" => showArr Op.intArr (runArrGuarded (rdI 4) 4 bs)
+  | "longArr" => showArr Op.longArr (runArrGuarded (rdI 8) 8 bs)
+  | "floatArr" => showArr Op.floatArr (runArrGuarded (rdU 4) 4 bs)
+  | "doubleArr" => showArr Op.doubleArr (runArrGuarded (rdU 8) 8 bs)
+  | "textArr" => showArr Op.textArr (runArrGuarded decBlob 1 bs)
+  | "decArr" =>
+    match runDecArrGuarded bs with
+    | some (v, rest) => s!"{listOf toString v} {rest.length}"
+    | none => "fail"
+  | _ => "bad-op"
 
 def answer (line : String) : String :=
   match line.splitOn " " with
@@ -169,6 +253,39 @@ def answer (line : String) : String :=
       let w := (Writer.exec ops).secureHeader src ver pcode oid key
       s!"{hexOf w.buf} {w.written}"
     | _, _, _, _, _, _ => "bad-op"
+  | ["RB", sz, hex] =>
+    match parseInt sz, ofHex hex with
+    | some sz, some bs =>
+      match P.run (rdBytesI sz) bs with
+      | some (v, rest) => s!"{hexOf v} {rest.length}"
+      | none => "fail"
+    | _, _ => "bad-op"
+  | ["CK", count, mb, avail] =>
+    match parseInt count, parseInt mb, parseNat avail with
+    | some count, some mb, some avail => if checkCount count mb avail then "ok" else "fail"
+    | _, _, _ => "bad-op"
+  | ["RG", kind, hex] =>
+    match ofHex hex with
+    | some bs => guardedArr kind bs
+    | none => "bad-op"
+  | ["G", conv, pos, hex] =>
+    match parseNat pos, ofHex hex with
+    | some pos, some buf => convAt conv buf pos
+    | _, _ => "bad-op"
+  | ["SB", w, off, v, hex] =>
+    match parseNat w, parseNat off, parseInt v, ofHex hex with
+    | some w, some off, some v, some buf => showOpt hexOf (setAt buf off (encI w v))
+    | _, _, _, _ => "bad-op"
+  | ["SR", off, src, hex] =>
+    match parseNat off, ofHex src, ofHex hex with
+    | some off, some src, some buf => showOpt hexOf (setAt buf off src)
+    | _, _, _ => "bad-op"
+  | ["HIST", steps] =>
+    match (steps.splitOn "|").mapM parseStep with
+    | some h =>
+      let w := h.foldl Writer.step Writer.empty
+      s!"{hexOf w.buf} {w.written}"
+    | none => "bad-op"
   | _ => "bad-op"
 where
   listOfOps (vs : List Op) : String :=
